@@ -15,7 +15,8 @@ fn tok(o: &Op) -> String {
         Op::Reqi(r) => format!("reqi:{r}"), Op::Flags(f) => format!("flags:{f}"), Op::Flag(i, e) => format!("flag:{i}:{}", *e as u8),
         Op::Prefix(p) => format!("prefix:{}", p.map(|c| (c as u32).to_string()).unwrap_or("none".into())),
         Op::Iname(a) => format!("iname:{}", a.as_ref().map(|s| hex(s.as_bytes())).unwrap_or("none".into())),
-        Op::Interval(d) => format!("interval:{}", d.map(|x| x.to_string()).unwrap_or("none".into())),
+        // u64::MAX stands for Duration::MAX; the model line carries 2^62 - 1 (any value >= 65536 is refused alike; the driver parses native ints)
+        Op::Interval(d) => format!("interval:{}", d.map(|x| if x == u64::MAX { "4611686018427387903".to_string() } else { x.to_string() }).unwrap_or("none".into())),
     }
 }
 fn parse_tok(t: &str) -> Op {
@@ -25,7 +26,7 @@ fn parse_tok(t: &str) -> Op {
         "tcp" => Op::Tcp, "relay" => Op::Relay, "udp" => Op::Udp(opt(p[1]).map(|x| x.parse().unwrap())), "mode" => Op::Mode(p[1] == "C"),
         "admin" => Op::Admin(opt(p[1]).map(|h| String::from_utf8(unhex(&h)).unwrap())), "reqi" => Op::Reqi(p[1].parse().unwrap()), "flags" => Op::Flags(p[1].parse().unwrap()),
         "flag" => Op::Flag(p[1].parse().unwrap(), p[2] == "1"), "prefix" => Op::Prefix(opt(p[1]).map(|x| char::from_u32(x.parse().unwrap()).unwrap())),
-        "iname" => Op::Iname(opt(p[1]).map(|h| String::from_utf8(unhex(&h)).unwrap())), _ => Op::Interval(opt(p[1]).map(|x| x.parse().unwrap())),
+        "iname" => Op::Iname(opt(p[1]).map(|h| String::from_utf8(unhex(&h)).unwrap())), _ => Op::Interval(opt(p[1]).map(|x| if x == "4611686018427387903" { u64::MAX } else { x.parse().unwrap() })),
     }
 }
 const REMOTE: &str = "127.0.0.1:29999";
@@ -37,7 +38,7 @@ fn apply(b: Builder, o: &Op) -> Builder {
         Op::Mode(c) => if *c { b.compressed() } else { b.uncompressed() },
         Op::Admin(a) => b.isi_admin_password(a.clone()), Op::Reqi(r) => b.isi_reqi(RequestId(*r)), Op::Flags(f) => b.isi_flags(IsiFlags::from_bits_retain(*f)),
         Op::Flag(i, e) => match i { 0 => b.isi_flag_mci(*e), 1 => b.isi_flag_local(*e), 2 => b.isi_flag_mso_cols(*e), 3 => b.isi_flag_nlp(*e), 4 => b.isi_flag_con(*e), 5 => b.isi_flag_obh(*e), 6 => b.isi_flag_hlv(*e), 7 => b.isi_flag_axm_load(*e), 8 => b.isi_flag_axm_edit(*e), _ => b.isi_flag_req_join(*e) },
-        Op::Prefix(p) => b.isi_prefix(*p), Op::Iname(n) => b.isi_iname(n.clone()), Op::Interval(d) => b.isi_interval(d.map(Duration::from_millis)),
+        Op::Prefix(p) => b.isi_prefix(*p), Op::Iname(n) => b.isi_iname(n.clone()), Op::Interval(d) => b.isi_interval(d.map(|x| if x == u64::MAX { Duration::MAX } else { Duration::from_millis(x) })),
     }
 }
 /// spec: last value set or default, computed independently of the builder
@@ -63,15 +64,15 @@ fn check(ops: &[Op], st: &mut Stats) -> String {
     let Some(b) = built else { st.fail("[C18] a builder setter panics".into(), id); return "panic".into() };
     let Some(isi) = guard(|| b.isi()) else { st.fail("[C18] Builder::isi panics".into(), id); return "panic".into() };
     let w = want(ops);
-    let got = Want { reqi: isi.reqi.0, udpport: isi.udpport, flags: isi.flags.bits(), prefix: isi.prefix as u32, interval: isi.interval.as_millis() as u64, admin: isi.admin.clone(), iname: isi.iname.clone(), compressed: w.compressed };
+    let got = Want { reqi: isi.reqi.0, udpport: isi.udpport, flags: isi.flags.bits(), prefix: isi.prefix as u32, interval: isi.interval.as_millis().min(u64::MAX as u128) as u64, admin: isi.admin.clone(), iname: isi.iname.clone(), compressed: w.compressed };
     if got != w { st.fail(format!("[C18] ISI is {:?}, the configured options are {:?}", got, w), id.clone()); }
     if isi.version != 9 { st.fail(format!("[C18] ISI version {}", isi.version), id.clone()); }
-    match encode_p(w.compressed, &Packet::Isi(isi)) { Enc::Ok(f) => format!("{} ok:{}", mode_tag(w.compressed), hex(&f)), Enc::Err => format!("{} enc:E", mode_tag(w.compressed)), Enc::Panic => format!("{} enc:P", mode_tag(w.compressed)) }
+    match encode_p(w.compressed, &Packet::Isi(isi)) { Enc::Ok(f) => format!("{} ok:{}", mode_tag(w.compressed), hex(&f)), Enc::Err => format!("{} enc:E", mode_tag(w.compressed)), Enc::Panic => { st.fail("[C18] encoding the ISI of this configuration panics".into(), id.clone()); format!("{} enc:P", mode_tag(w.compressed)) } }
 }
 
 fn alphabet() -> Vec<Op> {
     let mut v = vec![Op::Tcp, Op::Udp(None), Op::Udp(Some(40000)), Op::Relay, Op::Mode(true), Op::Mode(false), Op::Admin(Some("secret".into())), Op::Admin(Some("0123456789abcdef".into())), Op::Admin(None), Op::Reqi(7), Op::Flags(0), Op::Flags(0x0ffc), Op::Flags(36),
-                     Op::Prefix(Some('!')), Op::Prefix(None), Op::Iname(Some("verif".into())), Op::Iname(Some("A-16-char-name-x".into())), Op::Iname(None), Op::Interval(Some(500)), Op::Interval(None)];
+                     Op::Prefix(Some('!')), Op::Prefix(None), Op::Iname(Some("verif".into())), Op::Iname(Some("A-16-char-name-x".into())), Op::Iname(None), Op::Interval(Some(500)), Op::Interval(None), Op::Interval(Some(65535)), Op::Interval(Some(65001)), Op::Interval(Some(65536)), Op::Interval(Some(u64::MAX))];
     for i in 0..10 { v.push(Op::Flag(i, true)); } for i in [0usize, 1, 5, 9] { v.push(Op::Flag(i, false)); }
     v
 }
